@@ -309,6 +309,7 @@ class State:
         self.trace = []
         self.notes = []
         self.closures = {}
+        self.mutcalls = {}
         self.depth = 0
         self.loops = []      # stack of loop source terms we are (symbolically) inside
         self.frames = []
@@ -473,7 +474,15 @@ class State:
             return self.call_path(target, args, node)
         if is_eff:
             self.effect('call', norm_path(target), args, node)
-        return ('call', norm_path(target), tuple(args))
+        r = ('call', norm_path(target), tuple(args))
+        # a method with a `&mut self` receiver may return something new each time (readers, iterators,
+        # pop): the 2nd, 3rd.. textually identical call in one world gets a distinguishing ordinal
+        if recv_ty and recv_ty.startswith('&mut') and args:
+            n = self.mutcalls.get(r, 0) + 1
+            self.mutcalls[r] = n
+            if n > 1:
+                r = ('call', norm_path(target), tuple(args) + (('lit', n, '#nth'),))
+        return r
 
     def local_conversion(self, npath, args, node, recv_ty):
         """Into/From/TryInto/TryFrom whose target is a local type with a local impl: resolve to that impl"""
